@@ -44,7 +44,7 @@ ASSUMPTIONS = [
     "a blank mnemonic comes with fields that contain no period",
     "float formatting/parsing of the concrete numeric values is numpy/libc code (trusted)",
 ]
-WITNESS_TARGETS = ["symbolic-item-is-widest", "symbolic-item-is-narrowest", "version-1.2-well-order", "empty-value-with-unit-becomes-0", "blank-mnemonic", "case-mapped-mnemonic"]
+WITNESS_TARGETS = ["STRT-is-the-widest-well-entry", "symbolic-item-is-widest", "symbolic-item-is-narrowest", "version-1.2-well-order", "empty-value-with-unit-becomes-0", "blank-mnemonic", "case-mapped-mnemonic"]
 def _dup_steer_sym(i):
     if i["section"] != "W" or not isinstance(i["m"], (str, SymStr)):
         return False
@@ -70,7 +70,7 @@ def tasks(tier):
     # four-letter mnemonics in ~Well: long enough to spell STRT/STOP/STEP/NULL in any case mix, whose
     # value/description order depends on the version
     for comp in b["companions"]:
-        for shp in ([(4, 0, 1, 1), (4, 1, 1, 1)] if tier == "quick" else [(4, a, b_, c) for a in (0, 1) for b_ in (0, 1, 2) for c in (0, 1, 2)]):
+        for shp in ([(4, 0, 1, 1), (4, 1, 1, 1), (5, 0, 1, 1)] if tier == "quick" else [(n, a, b_, c) for n in (4, 5) for a in (0, 1) for b_ in (0, 1, 2) for c in (0, 1, 2)]):
             out.append({"name": "W/%s/%s" % (comp, "".join(map(str, shp))), "params": {"section": "W", "companion": comp, "shape": list(shp), "letters_only": True}})
     return out
 
@@ -83,7 +83,8 @@ def harness(ns, params):
         core.OPTS["concretize"] = True
         m, u, v, d = W.conformant_item("s", shape, section)
         if params.get("letters_only"):
-            A(allc(m, lambda c: z.Or(z.in_range_c(c, 65, 90), z.in_range_c(c, 97, 122))))
+            A(allc(m, lambda c: z.Or(z.in_range_c(c, 65, 90), z.in_range_c(c, 97, 122), z.in_range_c(c, 48, 57))))
+            A(z.Not(z.in_range_c(m.chars[0], 48, 57)))
             core.witness("mixed-case-spelling-of-an-order-table-mnemonic", z.And(z.Or([SymStr.lift(m.upper()).eq_expr(n) for n in ("STRT", "STOP", "STEP", "NULL")]), z.Not(m.eq_expr(m.upper())), z.Not(m.eq_expr(m.lower()))))
         if shape[0] == 0:
             for x in (u, v, d):
@@ -92,13 +93,17 @@ def harness(ns, params):
         v12 = fresh_bool("version12")
         mc = fresh_int("mnemonic_case", 0, 2)
         first = fresh_bool("sym_first")
-        inputs = {"section": section, "companion": companion, "shape": list(shape), "m": m, "u": u, "v": v, "d": d, "version12": v12, "mnemonic_case": mc, "sym_first": first}
+        big = fresh_bool("big_index")  # index samples around 1e9: STRT/STOP become the widest ~Well entries
+        inputs = {"section": section, "companion": companion, "shape": list(shape), "m": m, "u": u, "v": v, "d": d, "version12": v12, "mnemonic_case": mc, "sym_first": first, "big_index": big}
         cx = core.ctx()
         cx.inputs = inputs
         apply_exclusions(inputs)
         version = 1.2 if bool(v12) else 2.0
         mcase = ["preserve", "upper", "lower"][mc.__index__()]
         las = W.base_las(ns)
+        if bool(big):
+            list.__getitem__(las.curves, 0).data = np.array([1e9, 1e9 + 1.0])
+            core.witness("STRT-is-the-widest-well-entry")
         if section in ("W", "P") and companion == "wide":
             for f in NUMERIC:
                 las.sections[W.SECTIONS[section]].append(ns.items.HeaderItem(*f))
@@ -124,7 +129,7 @@ def harness(ns, params):
             return {"observed": {"raised": "read:" + type(e).__name__}}
         got = W.snapshot_sections(las2)
         skip_desc = (("Version", "VERS"),)  # the VERS description is replaced by the writer's standard text
-        obl = W.sections_equal(got, exp, mnemonic_case=mcase)
+        obl = W.sections_equal(got, exp, mnemonic_case=mcase, skip=())  # exp is the post-write state, so STRT/STOP/STEP are comparable too
         obl = [(n, c) for n, c in obl if not (n.startswith("Version[0]-descr"))]
         core.oblige_all(obl)
         return {"observed": {"raised": None, "nlines": len(lines)}}
@@ -148,6 +153,8 @@ def replay(i):
     ns.las = lasio.las
     ns.items = lasio.las_items
     las = W.base_las(ns)
+    if i.get("big_index"):
+        las.curves[0].data = np.array([1e9, 1e9 + 1.0])
     if section in ("W", "P") and companion == "wide":
         for f in NUMERIC:
             las.sections[W.SECTIONS[section]].append(lasio.HeaderItem(*f))
@@ -165,7 +172,7 @@ def replay(i):
     except Exception as e:
         return {"ok": False, "detail": "read of the written text raised %r:\n%s" % (e, text), "observed": {"raised": "read:" + type(e).__name__}}
     got = W.snapshot_sections(las2)
-    obl = W.sections_equal(got, exp, mnemonic_case=mcase)
+    obl = W.sections_equal(got, exp, mnemonic_case=mcase, skip=())  # exp is the post-write state, so STRT/STOP/STEP are comparable too
     bad = [n for n, c in obl if not n.startswith("Version[0]-descr") and not bool(c)]
     return {"ok": not bad, "detail": "ok" if not bad else "differences %r; item (%r,%r,%r,%r) in ~%s written (version %s) as:\n%s\nread back (mnemonic_case=%s): %r" % (bad, i["m"], i["u"], i["v"], i["d"], section, version, "\n".join(l for l in text.splitlines() if not l[:1].isdigit())[:1500], mcase, got.get(W.SECTIONS[section])),
             "observed": {"raised": None, "nlines": len(text.splitlines())}}
